@@ -13,7 +13,9 @@ EXTENDS Integers, Sequences, FiniteSets, TLC
 
 CONSTANTS Prefs,            \* key preferences the user can configure
           AgentModes,       \* "ok" (takes certificates), "nolifetime" (refuses entries with a lifetime: old Windows agents),
-                            \* "refuse" (takes nothing), "none" (no agent)
+                            \* "refuse" (takes nothing), "none" (no agent),
+                            \* "noremove" (lists and adds, refuses every removal: gpg-agent's ssh emulation, restricted
+                            \* forwarded agents), "noremove_once" (a removal fails once, the retry goes through)
           SecondFactors,    \* "none", "totp", "vip"
           ServerCertifies,  \* key types the server signs
           AsBuilt
@@ -72,14 +74,19 @@ Removed(a, l) == IF Has("AppendsInAgent") THEN a
 Upsert(a, l) == Append(Removed(a, l), Entry(l, FALSE, TRUE))
 SshSlotsGot == {s \in {"sshed", "sshmain"} : Got(s)}
 KeyFile(s) == [class |-> "sshkey-" \o s, private |-> TRUE, mode |-> IF Has("WorldReadableKey") THEN 420 ELSE 384]
+HasLabel(a, l) == \E i \in DOMAIN a : a[i].label = l
+\* does the certificate of ssh slot s end up in agent a?  An agent that refuses removals still takes a certificate under a
+\* label it does not hold yet; under a label it holds, the upsert fails as a whole and the key goes to a file
+GoesToAgent(a, s) == \/ mode \in {"ok", "nolifetime", "noremove_once"}   \* "nolifetime"/"noremove_once": the second attempt succeeds
+                     \/ mode = "noremove" /\ (Has("IgnoresRemoveFailure") \/ ~HasLabel(a, LabelOf(pref, s)))
+AfterSlot(a, s) == IF ~Got(s) \/ ~GoesToAgent(a, s) THEN a
+                   ELSE IF mode = "noremove" THEN Append(a, Entry(LabelOf(pref, s), FALSE, TRUE))   \* nothing could be removed
+                   ELSE Upsert(a, LabelOf(pref, s))
+FileSlots == {s \in SshSlotsGot : ~GoesToAgent(agent, s)}
 Install == /\ phase = "authenticated" /\ AllAsked /\ Got("x509") /\ Got("sshmain")
-           /\ IF mode \in {"ok", "nolifetime"}          \* "nolifetime": the second attempt (without a lifetime) succeeds
-              THEN /\ agent' = (IF Got("sshed") THEN Upsert(Upsert(agent, LabelOf(pref, "sshed")), LabelOf(pref, "sshmain"))
-                                ELSE Upsert(agent, LabelOf(pref, "sshmain")))
-                   /\ files' = files \cup {[class |-> "x509key", private |-> TRUE, mode |-> 384], [class |-> "x509cert", private |-> FALSE, mode |-> 420]}
-              ELSE /\ agent' = agent
-                   /\ files' = files \cup {[class |-> "x509key", private |-> TRUE, mode |-> 384], [class |-> "x509cert", private |-> FALSE, mode |-> 420]}
-                                      \cup {KeyFile(s) : s \in SshSlotsGot} \cup {[class |-> "sshcert-" \o s, private |-> FALSE, mode |-> 420] : s \in SshSlotsGot}
+           /\ agent' = AfterSlot(AfterSlot(agent, "sshed"), "sshmain")
+           /\ files' = files \cup {[class |-> "x509key", private |-> TRUE, mode |-> 384], [class |-> "x509cert", private |-> FALSE, mode |-> 420]}
+                              \cup {KeyFile(s) : s \in FileSlots} \cup {[class |-> "sshcert-" \o s, private |-> FALSE, mode |-> 420] : s \in FileSlots}
            /\ phase' = "installed" /\ rounds' = rounds + 1 /\ UNCHANGED <<pref, mode, factor, wire, certs>>
 \* the user runs the client again (new keys, new certificates)
 Again == /\ phase = "installed" /\ rounds < 2 /\ phase' = "start"
@@ -92,9 +99,11 @@ Spec == Init /\ [][Next]_vars
 NoPrivateOnWire == \A x \in wire : x[1] # "priv"
 PrivateFilesRestricted == \A f \in files : f.private => f.mode = 384
 \* after an installation the agent holds exactly one entry under each of the client's labels it installed, and it is the new one
-OneCertPerLabel == phase = "installed" /\ mode \in {"ok", "nolifetime"} =>
+OneCertPerLabel == phase = "installed" /\ mode \in {"ok", "nolifetime", "noremove_once"} =>
                       \A l \in {LabelOf(pref, s) : s \in SshSlotsGot} :
                           Cardinality({i \in DOMAIN agent : agent[i].label = l}) = 1 /\ \E i \in DOMAIN agent : agent[i].label = l /\ agent[i].mine
+\* whatever the agent can or cannot do: a certificate the client installed never sits beside another one of the same label
+NewReplacesOld == \A i \in DOMAIN agent : agent[i].mine => Cardinality({j \in DOMAIN agent : agent[j].label = agent[i].label}) = 1
 \* what other tools keep in the agent is none of the client's business
 OtherLabelsKept == [][\A i \in DOMAIN agent : agent[i].label = Other => \E j \in DOMAIN agent' : agent'[j] = agent[i]]_vars
 \* every key type the client can be configured to offer is one the server certifies (the Ed25519 extra may be refused)
